@@ -23,14 +23,6 @@ func TestVerifFactsC12(t *testing.T) {
 	amlPrintFacts(out.w, "C12")
 }
 
-// TestVerifAmlChild is the entry point of the re-executed child process (see amlRunChild).
-func TestVerifAmlChild(t *testing.T) {
-	if os.Getenv(amlChildEnv) == "" {
-		t.Skip("child only")
-	}
-	amlChildMain()
-}
-
 // ------------------------------------------------------------------ generators
 
 type c12Base struct {
@@ -68,22 +60,6 @@ func c12Index(p []byte) *c12Base {
 var c12Interesting = []byte{0x00, 0x01, 0x02, 0x03, 0x06, 0x08, 0x0a, 0x0b, 0x0c, 0x0d, 0x0e, 0x10, 0x11, 0x12, 0x13, 0x14, 0x15,
 	0x2e, 0x2f, 0x5b, 0x5c, 0x5e, 0x5f, 0x41, 0x5a, 0x60, 0x68, 0x70, 0x71, 0x72, 0x83, 0x86, 0x88, 0x8d, 0xa0, 0xa1, 0xa2, 0xa3, 0xa4,
 	0xcc, 0xff, 0x3f, 0x40, 0x4f, 0x80, 0x81, 0x82, 0x87, 0x88, 0xc0, 0xcf, 0xfe, 0x7f, 0x30}
-
-func c12EncPkgLen(v uint32, width int) []byte {
-	// value v in exactly `width` bytes (1..4); width 1 holds 6 bits
-	switch width {
-	case 1:
-		return []byte{byte(v & 0x3f)}
-	default:
-		out := []byte{byte((width-1)<<6) | byte(v&0xf)}
-		v >>= 4
-		for i := 1; i < width; i++ {
-			out = append(out, byte(v))
-			v >>= 8
-		}
-		return out
-	}
-}
 
 func c12Pos(r *vrng, b *c12Base) int {
 	n := len(b.payload)
@@ -800,10 +776,3 @@ func c12Repeat(s string, n int) string {
 	return out
 }
 
-func sortStrings(xs []string) {
-	for i := 1; i < len(xs); i++ {
-		for j := i; j > 0 && xs[j] < xs[j-1]; j-- {
-			xs[j], xs[j-1] = xs[j-1], xs[j]
-		}
-	}
-}
